@@ -41,7 +41,7 @@ CLAIMED['C13'] = dict(
          'untraced text is never reported, the real stdout receives everything. Correspondence: the real closures on '
          'generated and exhaustive short write sequences, and generated printing programs (threads, tasks, partial '
          'writes, debugger-output commands) through the real spawned-side code, vs the model (vm_compute) and a direct oracle.',
-    note='PARTIAL: the clause "debugger text is never reported" is not a theorem: it holds because Pdb is given its own stream (pdb_/factory.py, stream.py), which is not modelled; it is covered by the system-level runs with debugger-output commands (policy with-debugger-output-commands) and their oracle. ' +
+    note='Trusted for the debugger-text clause: pdb/cmd write to the stdout they were constructed with and read through stdin.readline() (exercised by the two-sink runs with the real Pdb on every check). ' +
          'Trusted: Coq kernel; the translator and Stdout/Prim.v (meaning of the recognised Python constructs); harness. '
          'Modelled: GIL atomicity of dict ops on distinct keys; current_trace_no() constant during one write. No axioms.',
     technique='Coq list-induction proofs over a model regenerated from source by a fail-closed ast translator + differential correspondence',
@@ -249,6 +249,32 @@ TIE2 = {
             'list and never gets stuck (C19_tie_merge, C19_tie_agen, C19_tie_to_aiter).',
             '; source regenerated by an ast translator, simulation proof between the regenerated code and the model'),
 }
+_IMP = (' SECOND TIE (every run): translate/imp_skeleton.py regenerates every method of Imp and Nextline as a statement tree (Gen/ImpSkeleton.v); '
+        'Life/ImpTie.v proves for every oracle (any await may raise, any condition either way): every machine trigger and broker close happens under the ONE '
+        'lifecycle lock, user code never runs under it, the lock is free on every exit; the calls that take the lock are exactly those for which Life/Model.v\'s '
+        'do_call acquires; the action order of close() equals the model\'s close path; Nextline reaches the machine only through Imp\'s locked methods; the '
+        '_started/_closed guards are atomic with their tests.')
+TIE2.update({
+    'C01': (_IMP, '; imp.py/main.py regenerated, lock discipline proved for every oracle and tied to the model'),
+    'C03': (_IMP, '; imp.py/main.py regenerated, lock discipline and close order proved for every oracle and tied to the model'),
+    'C15': (_IMP, '; imp.py/main.py regenerated, lock discipline proved for every oracle and tied to the model'),
+    'C13': (' The clause "debugger text is never reported, the real stdout receives everything" is now a THEOREM: translate/debugger_stream.py regenerates '
+            'StdInOut, the Pdb construction in factory.py and the peek_textio wrapper (Gen/DebuggerStream.v); Stdout/DebugTie.v proves over a two-sink model, for '
+            'every interleaving of script writes and debugger writes: erasing the debugger writes leaves the reported sequence unchanged '
+            '(C13_debugger_text_never_reported), the real stdout gets exactly the script writes (C13_real_stdout_gets_everything), the prompt text is exactly what '
+            'that trace\'s debugger wrote since its last readline.  A registrar-level oracle judges what subscribers of stdout receive.',
+            '; debugger stream / peek wrapper regenerated, two-sink non-interference proofs'),
+    'C07': (' SECOND TIE (every run): translate/prompt_funs.py regenerates prompt.py, the prompt function of factory.py, CommandSender, the event dispatch and '
+            'send_pdb_command (Gen/PromptFuns.v); Prompt/Tie.v and TieSys.v prove, by induction over every label list, that the interpreter of the regenerated code '
+            'simulates Prompt/Model.v (child) and Prompt/System.v (system), and that over several runs the main-process guard forwards a command iff its pair was '
+            'started and not ended in the CURRENT run (C07_tie_main_set_exact, C07_tie_main_stale_pair_dropped).',
+            '; source regenerated by an ast translator, simulation proofs at child and system level'),
+    'C06': (' SECOND TIE (every run): translate/ids_funs.py regenerates ThreadTaskIdComposer, TaskAndThreadKeeper, TaskOrThreadToTraceMapper, the counters and '
+            'Repeater.on_start/end_trace (Gen/IdsFuns.v) -- which container is read by which key is visible in the term; Ids/Tie.v proves one label of the regenerated '
+            'code = one step of Ids/Model.v for all related states and the whole-run simulation, so the invariants (trace numbers injective and sequential, the '
+            '(thread, task) pair identifies the actor, numbers stable, attribution) hold of the code.',
+            '; source regenerated by an ast translator, simulation proof between the regenerated code and the model'),
+})
 for _k, (_t, _q) in TIE2.items():
     CLAIMED[_k] = dict(CLAIMED[_k], text=CLAIMED[_k]['text'] + _t, technique=CLAIMED[_k]['technique'] + _q)
 
